@@ -17,6 +17,7 @@ Same line protocol as the Lean driver m_c19 (lean/Drivers/C19.lean): one request
   size hiindex loindex hibound lobound unique
   fits K lo hi K' lo' hi'       may a `K [lo:hi] OF REAL` object be stored where `K' [lo':hi'] OF REAL` is the declared element type?
   accepts t base                is a value of the simple type t stored by a `LIST [0:?] OF base`?
+  mem t v                       `value in container` (EXPRESS `IN`): logical T | logical F | refused …
   bi F | biv F t v              the built-in function F of Builtin.py (SIZEOF HIINDEX LOINDEX HIBOUND LOBOUND VALUE_UNIQUE)
                                 applied to the current container | to a simple value
 replies
@@ -218,6 +219,12 @@ def handle(agg, w):
             return agg, refused(e)
     if agg is None:
         return agg, "no-aggregate"
+    if op == "mem" and len(w) == 3:
+        try:
+            r = mk_val(w[1], int(w[2]), agg._verif_declared) in agg
+        except Exception as e:
+            return agg, refused(e)
+        return agg, show_logical(r)
     if op == "bi" and len(w) == 2 and w[1] in BUILTIN:
         try:
             r = getattr(Builtin, w[1])(agg)
